@@ -72,7 +72,7 @@ def check_r1(facts, rep, crate, takes):
             rep.bad(rid, key, where,
                     "a Push frame is queued on a path that did not obtain a unit of credit: the queue-send is not "
                     "dominated by the Ready + Some/Ok edge of a call to a credit-take function")
-    rep.floor(rid, "Push emission sites", n, 3)
+    rep.floor(rid, "Push emission sites", n, 3 if "std" in crate.features else 1)
 
 
 def check_r2(facts, rep, crate, takes):
